@@ -387,7 +387,7 @@ StateRec(kind, o) ==
   [kind |-> kind, x |-> o.x, msg |-> o.msg, success |-> o.success,
    nit |-> o.nit, nfev |-> o.nfev, njev |-> o.njev,
    funOk |-> o.funOk, jacOk |-> o.jacOk, pg |-> o.pg, leT |-> o.leT, fr |-> o.fr,
-   prov |-> o.prov, yOk |-> o.yOk, syPos |-> o.syPos, frozen |-> o.frozen,
+   prov |-> o.prov, yOk |-> o.yOk, exact |-> o.exact, yAp |-> o.yAp, syPos |-> o.syPos, frozen |-> o.frozen,
    \* the model's own bookkeeping at the moment of emission
    mx |-> x, mnit |-> nit, mnfev |-> nfev, mnjev |-> njev, mmem |-> mem, mfx |-> fx,
    mfAt |-> fAt, mgAt |-> gAt, mlastCb |-> lastCb, mcalls |-> calls, mgen |-> gen,
@@ -467,12 +467,18 @@ C07_SnapPairs == snap.kind = "cb" => Len(snap.prov) = Len(snap.mmem) - 1
 \* C10 / C18: memory discipline and provenance of the correction pairs
 C10_Bounded == Len(mem) <= cfg.maxcor + 1
 C18_Count   == IsRes => Len(out.prov) <= cfg.maxcor
-C18_Provenance == IsRes /\ out.kind = "result" /\ out.mgen = 0 /\ chain = 0 /\ ~cfg.ck =>
-                    /\ out.prov = Pairs(out.mmem)
-                    /\ \A i \in DOMAIN out.yOk : out.yOk[i]
-C18_SnapProvenance == snap.kind = "cb" /\ snap.mgen = 0 /\ chain = 0 /\ ~cfg.ck =>
-                    /\ snap.prov = Pairs(snap.mmem)
-                    /\ \A i \in DOMAIN snap.yOk : snap.yOk[i]
+\* every pair is the bit-exact difference of two consecutive retained iterates and of the gradients there
+ProvOK(r) == /\ r.prov = Pairs(r.mmem)
+             /\ \A i \in DOMAIN r.yOk : r.yOk[i] /\ r.exact[i]
+C18_Provenance == IsRes /\ out.kind = "result" /\ out.mgen = 0 /\ chain = 0 /\ ~cfg.ck => ProvOK(out)
+C18_SnapProvenance == snap.kind = "cb" /\ snap.mgen = 0 /\ chain = 0 /\ ~cfg.ck => ProvOK(snap)
+\* after a restart the pairs formed since the restart are exact; the inherited ones are, at least up
+\* to rounding, differences of iterates the chain visited, in chronological order (b of pair i = a of pair i+1)
+ProvRestartOK(r) == /\ \A i \in DOMAIN r.prov : r.prov[i][1] # 0 /\ r.yAp[i]
+                    /\ \A i \in 1..(Len(r.prov) - 1) : r.prov[i][2] = r.prov[i + 1][1]
+C18_ProvenanceRestart == IsRes /\ out.kind = "result" /\ out.mgen = 0 /\ (chain > 0 \/ cfg.ck) => ProvRestartOK(out)
+C18_InheritedExact == IsRes /\ out.kind = "result" /\ out.mgen = 0 /\ (chain > 0 \/ cfg.ck) =>
+                         \A i \in DOMAIN out.exact : out.exact[i] /\ out.yOk[i]
 C18_Curvature == (IsRes => out.syPos) /\ (snap.kind = "cb" => snap.syPos)
 
 \* C17: the scaler is invoked exactly once
@@ -499,6 +505,7 @@ InvTable == <<
   <<"C07_SnapPairs", C07_SnapPairs>>,
   <<"C10_Bounded", C10_Bounded>>, <<"C18_Count", C18_Count>>, <<"C18_Provenance", C18_Provenance>>,
   <<"C18_SnapProvenance", C18_SnapProvenance>>, <<"C18_Curvature", C18_Curvature>>,
+  <<"C18_ProvenanceRestart", C18_ProvenanceRestart>>, <<"C18_InheritedExact", C18_InheritedExact>>,
   <<"C17_ScalerOnce", C17_ScalerOnce>>,
   <<"C20_Propagates", C20_Propagates>>, <<"C20_NoResultAfterFault", C20_NoResultAfterFault>> >>
 
